@@ -64,6 +64,11 @@ class SWWorld(object):
       kw["features"] = ft
       sim.probes["switch_without_some_actions"] += 1
     self.switch = ExpiringSwitch(**kw)
+    if cfg.get("local_port"):
+      # the switch's own network stack as a port: OFPP_LOCAL, a legal
+      # ingress port above OFPP_MAX
+      self.switch.add_port(self.switch.generate_port(0xfffe, name="local"))
+      sim.probes["switch_has_local_port"] += 1
     if self.on_switch is not None:
       self.on_switch(self.switch)
     for no in cfg.get("ports_admin_down", ()):
